@@ -70,19 +70,19 @@ theorem insertAfter_split (pre post new : List Node) (r : Node)
   rw [hself pre hpre, hself post hpost]
   simp
 
-/-! initializer registration under fresh names -/
+/-! initializer registration before fix 340a24c, under fresh names -/
 
-theorem registerInits_fresh (d : Nat) (is : List (Name × String)) :
+theorem registerInitsPrefix_fresh (d : Nat) (is : List (Name × String)) :
     ∀ (g : Graph), (is.map (·.1)).Nodup → (∀ x ∈ is.map (·.1), x ∉ g.initNames) →
-      registerInits d g is = g.setInits (g.inits ++ is) := by
+      registerInitsPrefix d g is = g.setInits (g.inits ++ is) := by
   induction is with
-  | nil => intro g _ _; cases g; simp [registerInits, Graph.setInits, Graph.inits, Graph.inputs, Graph.nodes, Graph.outputs]
+  | nil => intro g _ _; cases g; simp [registerInitsPrefix, Graph.setInits, Graph.inits, Graph.inputs, Graph.nodes, Graph.outputs]
   | cons p rest ih =>
     intro g hnd hfresh
     obtain ⟨x, t⟩ := p
     have hx : x ∉ g.initNames := hfresh x (by simp)
-    have hstep : registerInit d g x t = g.setInits (g.inits ++ [(x, t)]) := by
-      unfold registerInit
+    have hstep : registerInitPrefix d g x t = g.setInits (g.inits ++ [(x, t)]) := by
+      unfold registerInitPrefix
       have : g.initNames.contains x = false := by simpa using hx
       rw [if_neg (by simpa using hx)]
     have hnd' : (rest.map (·.1)).Nodup := (List.nodup_cons.mp (by simpa using hnd)).2
@@ -99,9 +99,102 @@ theorem registerInits_fresh (d : Nat) (is : List (Name × String)) :
         · exact hyg h
         · subst h; exact hxr hy
     have := ih (g.setInits (g.inits ++ [(x, t)])) hnd' hfresh'
-    unfold registerInits at this ⊢
+    unfold registerInitsPrefix at this ⊢
     simp only [List.foldl_cons]
     rw [hstep, this]
     cases g; simp [Graph.setInits, Graph.inits, Graph.inputs, Graph.nodes, Graph.outputs]
+
+/-! initializer registration (after fix 340a24c) -/
+
+theorem freshInitName_spec (taken : List Name) (x y : Name) (h : freshInitName taken x = some y) :
+    y ∉ taken := by
+  unfold freshInitName at h
+  split at h
+  · rename_i hc
+    simp only [Option.some.injEq] at h
+    subst h
+    simpa using hc
+  · have := List.find?_some h
+    simpa using this
+
+theorem registerInits_spec (is : List (Name × String)) :
+    ∀ (g g' : Graph) (is' : List (Name × String)), registerInits g is = some (g', is') →
+      g'.nodes = g.nodes ∧ g'.inputs = g.inputs ∧ g'.outputs = g.outputs ∧ g'.inits = g.inits ++ is' ∧
+      is'.map (·.2) = is.map (·.2) ∧ (∀ y ∈ is'.map (·.1), y ∉ g.initNames) ∧ (is'.map (·.1)).Nodup := by
+  induction is with
+  | nil =>
+    intro g g' is' h
+    simp only [registerInits, Option.some.injEq, Prod.mk.injEq] at h
+    obtain ⟨h1, h2⟩ := h
+    subst h1; subst h2
+    simp
+  | cons p rest ih =>
+    intro g g' is' h
+    obtain ⟨x, t⟩ := p
+    simp only [registerInits] at h
+    split at h
+    · exact absurd h (by simp)
+    · rename_i y hy
+      split at h
+      · exact absurd h (by simp)
+      · rename_i g1 r hr
+        simp only [Option.some.injEq, Prod.mk.injEq] at h
+        obtain ⟨h1, h2⟩ := h
+        subst h1; subst h2
+        have hyt := freshInitName_spec _ _ _ hy
+        obtain ⟨a1, a2, a3, a4, a5, a6, a7⟩ := ih _ _ _ hr
+        have hnames : (g.setInits (g.inits ++ [(y, t)])).initNames = g.initNames ++ [y] := by
+          cases g; simp [Graph.setInits, Graph.initNames, Graph.inits]
+        have hbase : (g.setInits (g.inits ++ [(y, t)])).nodes = g.nodes ∧
+            (g.setInits (g.inits ++ [(y, t)])).inputs = g.inputs ∧
+            (g.setInits (g.inits ++ [(y, t)])).outputs = g.outputs ∧
+            (g.setInits (g.inits ++ [(y, t)])).inits = g.inits ++ [(y, t)] := by
+          cases g; simp [Graph.setInits, Graph.nodes, Graph.inputs, Graph.outputs, Graph.inits]
+        rw [hnames] at a6
+        refine ⟨a1.trans hbase.1, a2.trans hbase.2.1, a3.trans hbase.2.2.1, ?_, ?_, ?_, ?_⟩
+        · rw [a4, hbase.2.2.2]; simp
+        · simp [a5]
+        · intro z hz
+          simp only [List.map_cons, List.mem_cons] at hz
+          rcases hz with rfl | hz
+          · exact hyt
+          · exact fun hm => a6 z hz (by simp [hm])
+        · simp only [List.map_cons, List.nodup_cons]
+          exact ⟨fun hm => a6 y hm (by simp), a7⟩
+
+/-! opset imports of an extracted function -/
+
+theorem lookup_filter_key (l : List (String × Nat)) (p : String → Bool) (k : String) (hp : p k = true) :
+    (l.filter (fun kv => p kv.1)).lookup k = l.lookup k := by
+  induction l with
+  | nil => rfl
+  | cons a r ih =>
+    obtain ⟨d, v⟩ := a
+    by_cases hk : k == d
+    · have hkd : k = d := by simpa using hk
+      subst hkd
+      simp [hp, List.lookup]
+    · by_cases hpd : p d = true
+      · simp [hpd, List.lookup, hk, ih]
+      · simp [hpd, List.lookup, hk, ih]
+
+theorem mergeOpsets_lookup_main (main lo : List (String × Nat)) (d : String) (v : Nat)
+    (h : main.lookup d = some v) : (mergeOpsets main lo).lookup d = some ((lo.lookup d).getD v) := by
+  unfold mergeOpsets
+  rw [List.lookup_append]
+  have : (main.map (fun kv => (kv.1, (lo.lookup kv.1).getD kv.2))).lookup d = some ((lo.lookup d).getD v) := by
+    induction main with
+    | nil => simp [List.lookup] at h
+    | cons a r ih =>
+      obtain ⟨k, w⟩ := a
+      by_cases hk : d == k
+      · have hdk : d = k := by simpa using hk
+        subst hdk
+        simp [List.lookup] at h ⊢
+        rw [h]
+      · simp only [List.lookup, hk] at h
+        simp only [List.map_cons, List.lookup, hk]
+        exact ih h
+  rw [this]; rfl
 
 end OV.C07
